@@ -93,7 +93,7 @@ impl GlobalZoneIndexCache {
         if let Ok(mut guard) = self.inner.lock() {
             let keys: Vec<_> = guard
                 .iter()
-                .filter(|(key, _)| key.path.ends_with(segment_label))
+                .filter(|(key, _)| key_in_segment(&key.path, segment_label))
                 .map(|(key, _)| key.clone())
                 .collect();
             for key in keys {
@@ -102,7 +102,7 @@ impl GlobalZoneIndexCache {
         }
 
         if let Ok(mut inflight) = self.inflight.lock() {
-            inflight.retain(|key, _| !key.path.ends_with(segment_label));
+            inflight.retain(|key, _| !key_in_segment(&key.path, segment_label));
         }
     }
 
@@ -236,4 +236,12 @@ fn file_identity(path: &Path) -> Result<(u64, i64, u64), io::Error> {
             .unwrap_or(0);
         Ok((0, mtime, size))
     }
+}
+
+/// Cache keys are absolute *file* paths (`<shard>/<segment>/<uid>.<ext>`): a key belongs to a
+/// segment when its parent directory is named after the segment label.
+fn key_in_segment(path: &std::path::Path, segment_label: &str) -> bool {
+    path.parent()
+        .map(|dir| dir.ends_with(segment_label))
+        .unwrap_or(false)
 }
